@@ -63,6 +63,12 @@ def generate(libdir):
     src.append("    for (uint32_t lg=1; lg<=16; lg++) { for (int ty=0; ty<2; ty++) { if (ty==1 && masks[k][0]) continue;")
     src.append("      MODULE* mod = new_module_info((uint64_t)1<<lg, ty==0?FFT64:NTT120); void** f=(void**)&mod->func;")
     src.append(f'      for (unsigned i=0;i<{len(fields)};i++) printf("module%d.%s %d %u %s\\n", ty, fields[i], k, lg, nameof(f[i]));')
+    src.append("      if (ty==0) { printf(\"module0.p_conv %d %u %s\\n\", k, lg, nameof(*(void**)mod->mod.fft64.p_conv));")
+    src.append("        printf(\"module0.p_fft %d %u %s\\n\", k, lg, nameof(*(void**)mod->mod.fft64.p_fft));")
+    src.append("        printf(\"module0.p_ifft %d %u %s\\n\", k, lg, nameof(*(void**)mod->mod.fft64.p_ifft));")
+    src.append("        printf(\"module0.p_reim_to_znx %d %u %s\\n\", k, lg, nameof(*(void**)mod->mod.fft64.p_reim_to_znx));")
+    src.append("        printf(\"module0.p_addmul %d %u %s\\n\", k, lg, nameof(*(void**)mod->mod.fft64.p_addmul));")
+    src.append("        printf(\"module0.mul_fft %d %u %s\\n\", k, lg, nameof(*(void**)mod->mod.fft64.mul_fft)); }")
     src.append("      delete_module_info(mod); } }")
     src.append("  }")
     src.append("  return 0; }")
